@@ -38,6 +38,19 @@ CHECKS.update({
    ref="DESIGN.md §4 C11"),
 })
 
+CHECKS.update({
+ "C06": dict(
+   technique="property-based testing (proptest): reference remapper over generated inheritance DAGs, descriptor shape/segment oracle, X->Y->X round trip",
+   text="Generated-input exploration: remappers built by quill from generated sets (2-4 namespaces, every from/to pair) are queried for classes, field/method/return/array descriptors and members over generated inheritance graphs (unmapped intermediate owners, diamonds, shadowing) and compared with a reference remapper written from the statement; round trip on injective names. Holds on everything explored.",
+   note="Trusted: harness reference remapper. Acyclic inheritance, class names injective per namespace, one member per (name,descriptor) and class; where depth-first order and nearest-by-depth disagree either answer is accepted.",
+   ref="DESIGN.md §4 C06"),
+ "C12": dict(
+   technique="property-based testing (proptest): write/read round trip (stream and directory on tmpfs), placement predicate via an independent indentation reader, insertion-order determinism",
+   text="Generated-input exploration: expressible two-namespace sets are written by quill as one stream and as a directory tree, re-read and compared with the generating model; an independent reader of the CLASS structure checks exactly-once placement and nesting; two insertion orders must give identical bytes/trees; harness-written enigma text reads to the same set. Holds on everything explored.",
+   note="Trusted: harness model, harness enigma writer and indentation reader; tmpfs scratch directories. Only sets the format can express (see assumptions in the evidence file).",
+   ref="DESIGN.md §4 C12"),
+})
+
 NOT_YET = {
 }
 
